@@ -27,6 +27,8 @@ Suppressions:
 from dataclasses import dataclass, field
 from typing import Any
 
+from src.core.linter_utils import require_number
+
 # Default thresholds
 DEFAULT_MIN_OCCURRENCES = 2
 DEFAULT_MIN_VALUES_FOR_ENUM = 2
@@ -88,6 +90,9 @@ class StringlyTypedConfig:  # pylint: disable=too-many-instance-attributes
 
     def __post_init__(self) -> None:
         """Validate configuration values."""
+        require_number("min_occurrences", self.min_occurrences)
+        require_number("min_values_for_enum", self.min_values_for_enum)
+        require_number("max_values_for_enum", self.max_values_for_enum)
         if self.min_occurrences < 1:
             raise ValueError(f"min_occurrences must be at least 1, got {self.min_occurrences}")
         if self.min_values_for_enum < 2:
